@@ -29,7 +29,7 @@ CLAIMED = {
  "C10": ("model_checking", "6", "TLC: action property C10_ResetIsInit on AsyncPos/FftBlocks from every reachable state; TraceTwin predicate TwinFull between a used-then-reset instance (history = every reachable model state, plus seeded histories with ramps, masks, failed calls, partial calls) and a fresh twin: identical getters, counts and bit-identical digests."),
  "C11": ("model_checking", "6", "TraceTwin predicates TwinChan (channel c of an n-channel instance vs a one-channel twin, bit-identical) and TwinCtl (masked vs unmasked counts/getters), Contract predicate C11_MaskUntouched (sentinel-filled masked outputs, empty slices for masked channels), n in 1..8, constant masks incl. all-false."),
  "C16": ("model_checking", "6", "TraceTwin predicate TwinFull between an instance driven through process()/process_partial()/process_partial_into_buffer()/VecResampler and a twin driven through process_into_buffer on the zero-padded input, at every model history point and in seeded histories."),
- "C17": ("model_checking", "6", "TraceTwin predicate TwinCtl between f32 and f64 instances on identical histories (results, counts, all getters). The numeric half of C17 (outputs within a multiple of f32 epsilon) is not decided by the specification and not claimed."),
+ "C17": ("model_checking", "6", "TraceTwin predicate TwinCtl between f32 and f64 instances on identical histories (results, counts, all getters). The numeric half of C17 (outputs within a small multiple of f32 epsilon of the signal peak) cannot be decided by a TLA+ specification; it is GUARDED: the driver measures the largest f32-f64 difference of every call in units of epsilon*peak and TLC (TwinNear) compares it with a bound fixed at about 8x the largest value measured on the unchanged tree (64+4*sinc_len sinc, 64 polynomial, 256 FFT)."),
  "C18": ("model_checking", "6", "TLC on Fleet.tla (Isolation invariant, Diamond action property) enumerates every interleaving/migration schedule of N instances x M threads x K calls; each schedule is executed with real OS threads (independent steps truly concurrent, constructors racing) and TraceTwin predicate TwinFull compares every instance with its single-threaded reference, bit-identically."),
 }
 TECH = {
@@ -49,7 +49,7 @@ TECH.update({
  "C10": "TLA+ action property checked by TLC + TLC trace validation of reset twins (TraceTwin.tla)",
  "C11": "TLC trace validation of channel twins (TraceTwin.tla) and masked-output predicate (Contract.tla)",
  "C16": "TLC trace validation of wrapper/core twins (TraceTwin.tla)",
- "C17": "TLC trace validation of f32/f64 control twins (TraceTwin.tla)",
+ "C17": "TLC trace validation of f32/f64 control twins (TraceTwin.tla) + numeric guard",
  "C18": "TLC schedule enumeration (Fleet.tla) executed with real threads + TLC trace validation of thread twins",
 })
 NA = {
